@@ -983,17 +983,6 @@ _SHARED_OPS = {
 }
 
 
-def _line_cb(code, line):
-    s = S
-    if s is None or not s.active or s.aborting:
-        return None
-    me = s.by_ident.get(_get_ident())
-    if me is None or me is not s.running:
-        return None
-    s._switch(me, ("line", code.co_qualname, line))
-    return None
-
-
 def _instr_cb(code, offset):
     offs = _instr_offsets.get(code)
     if offs is None or offset not in offs:
@@ -1048,9 +1037,14 @@ def _code_objects(obj, seen):
 def instrument(line_modules=(), instr_functions=(), exclude=()):
     """Enable code-level scheduling points.
 
-    line_modules: modules (or classes) whose functions get LINE points.
-    instr_functions: function objects that get shared-access INSTRUCTION points.
-    exclude: qualnames to leave alone.
+    line_modules: modules (or classes) whose functions get a point at the start of every source line
+        (first instruction of every line-table entry, plus every jump target so that loops re-fire).
+    instr_functions: function objects that additionally get a point before every shared-access instruction.
+    exclude: qualnames (or 'Class.' prefixes) to leave alone.
+    Both kinds are implemented with INSTRUCTION events at statically computed offsets.  (LINE events are
+    not used: with the specializing interpreter they depend on how often a code object ran before - an
+    inlined property call re-fires the line event once the LOAD_ATTR has been specialized - which made
+    the first execution in a process differ from later ones.)
     Returns a description of what was instrumented (part of the evidence).
     """
     global _mon_ready
@@ -1058,32 +1052,42 @@ def instrument(line_modules=(), instr_functions=(), exclude=()):
 
     if not _mon_ready:
         _mon.use_tool_id(_TOOL, "wdmc")
-        _mon.register_callback(_TOOL, _mon.events.LINE, _line_cb)
         _mon.register_callback(_TOOL, _mon.events.INSTRUCTION, _instr_cb)
         _mon_ready = True
     desc = {"line": [], "instr": []}
     seen = set()
-    instr_codes = set()
+
+    def line_offsets(c):
+        offs = {start for start, _end, line in c.co_lines() if line is not None}
+        instrs = list(dis.get_instructions(c))
+        valid = {i.offset for i in instrs}
+        offs &= valid
+        offs |= {i.offset for i in instrs if i.is_jump_target}
+        offs -= {i.offset for i in instrs if i.opname in ("RESUME", "COPY_FREE_VARS", "MAKE_CELL", "RETURN_GENERATOR")}
+        return offs
+
     for f in instr_functions:
         if isinstance(f, (staticmethod, classmethod)):
             f = f.__func__
         f = getattr(f, "__func__", f)
-        code = f.__code__
-        stack = [code]
+        stack = [f.__code__]
         while stack:
             c = stack.pop()
-            offs = {i.offset for i in dis.get_instructions(c) if i.opname in _SHARED_OPS}
+            seen.add(c)
+            offs = {i.offset for i in dis.get_instructions(c) if i.opname in _SHARED_OPS} | line_offsets(c)
             _instr_offsets[c] = offs
-            instr_codes.add(c)
             _mon.set_local_events(_TOOL, c, _mon.events.INSTRUCTION)
             desc["instr"].append(f"{c.co_qualname}:{len(offs)}")
             stack.extend(k for k in c.co_consts if isinstance(k, types.CodeType))
+    seen2 = set()
     for m in line_modules:
-        for c in _code_objects(m, seen):
-            if c in instr_codes or c.co_qualname in exclude or any(
+        for c in _code_objects(m, seen2):
+            if c in seen or c.co_qualname in exclude or any(
                     x.endswith(".") and c.co_qualname.startswith(x) for x in exclude):
                 continue
-            _mon.set_local_events(_TOOL, c, _mon.events.LINE)
+            seen.add(c)
+            _instr_offsets[c] = line_offsets(c)
+            _mon.set_local_events(_TOOL, c, _mon.events.INSTRUCTION)
             desc["line"].append(c.co_qualname)
     return desc
 
